@@ -3,5 +3,5 @@ P('C11', shards=16, fuzz=[('FuzzHistory', 90)],
   text='Generated Add/Remove/bulk-add/invalid-argument histories (a third of them preloaded to sit at the 256-entry list-to-map switch with removed slots) run against the real filter and a '
        'set-of-prefixes model; after every step boundary addresses (first, last, outside neighbours) of touched and sampled prefixes and random addresses are probed in 4-byte and 16-byte form, '
        'and the full probe set at the end. Bulk removals (present, already removed and never-present ranges, often more removals than ranges) mirror the bulk adds. Exploration, not proof.',
-  note='Probes include 16-byte addresses that are not IPv4-mapped and slices of odd lengths. Arguments must be unchanged after every call. Trusts the 15-line reference model; real IPv6 addresses as Contains arguments and the mixed form (16-byte IP with 4-byte mask) may be rejected with the sentinel (then nothing changes) or accepted (then it is the range it spells) - both are generated and judged that way.',
+  note='TestManyRangesOfOneLength: 2^16+1 or 2^17+1 ranges of one prefix length (16..32) on one filter, probed around 256, 65536 and 131072 live ranges on the way up and down. Probes include 16-byte addresses that are not IPv4-mapped and slices of odd lengths. Arguments must be unchanged after every call. Trusts the 15-line reference model; real IPv6 addresses as Contains arguments and the mixed form (16-byte IP with 4-byte mask) may be rejected with the sentinel (then nothing changes) or accepted (then it is the range it spells) - both are generated and judged that way.',
   design='3/C11')
